@@ -1,6 +1,8 @@
 /* Launcher used by the C19 harness: drop from the sandbox's uid 0 to an unprivileged uid, then exec
  * the program under test (qmail-pop3d refuses to run as root; the sandbox has no other users).
  *   standin_asuser <uid> <program> [args...]
+ *   standin_asuser e<uid> ...   only the effective uid is lowered (real and saved uid stay 0): "invoked by root" all the same
+ *   standin_asuser r<uid> ...   real uid 0, effective and saved uid lowered (setreuid)
  * Exits 120 when the identity cannot be changed, 121 when the program cannot be executed.
  */
 #include <stdlib.h>
@@ -13,12 +15,23 @@ int main(int argc, char **argv)
   uid_t u;
   gid_t g;
   if (argc < 3) _exit(120);
-  u = (uid_t) atol(argv[1]);
+  char mode = 0;
+  char *a = argv[1];
+  if (*a == 'e' || *a == 'r') mode = *a++;
+  u = (uid_t) atol(a);
   g = (gid_t) u;
   if (setgroups(0, (gid_t *) 0) == -1) _exit(120);
   if (setgid(g) == -1) _exit(120);
-  if (setuid(u) == -1) _exit(120);
-  if (getuid() != u || geteuid() != u) _exit(120);
+  if (mode == 'e') {
+    if (seteuid(u) == -1) _exit(120);
+    if (getuid() != 0 || geteuid() != u) _exit(120);
+  } else if (mode == 'r') {
+    if (setreuid(0, u) == -1) _exit(120);
+    if (getuid() != 0 || geteuid() != u) _exit(120);
+  } else {
+    if (setuid(u) == -1) _exit(120);
+    if (getuid() != u || geteuid() != u) _exit(120);
+  }
   execv(argv[2], argv + 2);
   _exit(121);
 }
